@@ -109,6 +109,11 @@ def feasible(st, eqs=(), ges=()):
 
 
 def run(prog, chk, tier):
+    roundtrip(prog, chk)
+    run_tables(prog, chk, tier)
+
+
+def run_tables(prog, chk, tier):
     chk.explanation = __doc__.split("\n\n", 1)[1]
     chk.trusted += ["external-callee model table", "IANA / RFC 8489, 8445 code and length table transcribed in pylib/rules/c08.py"]
     # (a) TYPE constants
@@ -232,3 +237,160 @@ def run(prog, chk, tier):
     chk.ob("address-fidelity", "no address-normalising / classifying std::net API is reachable from an attribute codec", not bad,
            where=(ext[bad[0]][0][0] if bad else None), detail="reachable: %s" % bad[:3], how="call-graph reachability over %d bodies" % len(seen))
     chk.counts["codec_bodies"] = len(seen)
+
+
+# ------------------------------------------------------------------------------------------------ decode(encode(v)) = v
+
+# the property's "in-limit value" for fields whose range is not visible in their type (RFC 8489 section 14.8: class 3..=6, number 0..=99)
+VALUE_LIMITS = {"error::ErrorCode": {"code": (300, 699)}}
+
+
+def same_field(st, a, b):
+    """is the decoded field `a` the original field `b` (True / False / None = cannot tell)"""
+    from absint.models_content import content_segments
+    from rules.c12 import seg_equal
+    if isinstance(a, Num) and isinstance(b, Num):
+        if st.sys.entails_eq(a.e - b.e):
+            return True
+        if not feasible(st, eqs=[a.e - b.e]):
+            return False
+        # not provably equal: a violation when the decoded number is a known function of the original value (every variable is
+        # an input or a named function of inputs: remainders, quotients, truncations, byte swaps); otherwise the analysis
+        # lost track of it (an opaque call result, a join) and the type is reported as not decided
+        vs = set(st.sys.reduce(a.e).t) | set(st.sys.reduce(b.e).t)
+        known = all(re.match(r"^(t\d+_self|rm[0-9a-f]+$|rq[0-9a-f]+_ghostq$|cast\d+_|bswap\d+_|rd\d+@in:self)", v) for v in vs)
+        return False if known else None
+    if isinstance(a, Seq) and isinstance(b, Seq):
+        if not st.sys.entails_eq(a.len - b.len):
+            return None
+        sa, sb = content_segments(st, a), content_segments(st, b)
+        if sa is None or sb is None:
+            return None
+        from rules.c12 import split_be
+        sa, sb = split_be(sa), split_be(sb)
+        if len(sa) != len(sb):
+            return None
+        res = [seg_equal(st, x, y) for x, y in zip(sa, sb)]
+        if any(r is False for r in res):
+            return False
+        return True if all(r is True for r in res) else None
+    if isinstance(a, Struct) and isinstance(b, Struct):
+        if set(a.f) != set(b.f):
+            return None
+        res = [same_field(st, a.f[i], b.f[i]) for i in a.f]
+        if any(r is False for r in res):
+            return False
+        return True if all(r is True for r in res) else None
+    if isinstance(a, Enum) and isinstance(b, Enum) and a.adt == b.adt:
+        if len(a.v) == 1 and len(b.v) == 1:
+            (ia, va), = a.v.items()
+            (ib, vb), = b.v.items()
+            if ia != ib:
+                return False
+            return same_field(st, va, vb)
+        return None
+    return None
+
+
+def roundtrip(prog, chk):
+    """decode(encode(v)) = v, decided per attribute type on one symbolic value v: to_raw(v) is handed to the type's own decoder
+    (both analysed in content-tracking mode); on every Ok return each field of the decoded value must be the original field
+    (numbers: entailed equal; byte / text fields: the same identified bytes).  A type whose fields the analysis cannot
+    follow (socket addresses, element-wise lists, the xor-ed CRC) is reported as not decided, never as a violation."""
+    from absint.models_content import use_registry
+    from rules.agent_e2 import Run
+    from rules import c12
+    decided, undecided = [], []
+    for name, ty, code, rng, kind in SPEC:
+        self_s = A + ty
+        dk = decoder_key(prog, ty)
+        tk = None
+        for path, i in prog.trait_method_impls(A + "AttributeWrite", "to_raw"):
+            if i["self_s"].split("<")[0] == self_s:
+                tk = path
+        if dk is None or tk is None or tk not in prog.bodies:
+            chk.fail("roundtrip", "%s: to_raw / decoder not found" % name)
+            continue
+        tb = prog.bodies[tk]
+        adt = prog.adts.get(self_s)
+        fnames = [f["name"] for f in adt["variants"][0]["fields"]] if adt and adt.get("variants") else []
+
+        def variants_of(v, path=()):
+            """paths of enum-typed leaves with several unit-like variants (pinned one by one so that a copy is told apart)"""
+            out = []
+            if isinstance(v, Enum) and len(v.v) > 1 and len(v.v) <= 4:
+                out.append((path, sorted(v.v)))
+            elif isinstance(v, Struct):
+                for i_, x in v.f.items():
+                    out += variants_of(x, path + (i_,))
+            return out
+
+        def with_path(v, path, new):
+            if not path:
+                return new
+            return v.with_field(path[0], with_path(v.get(path[0]), path[1:], new))
+
+        def setup(run, st, tk=tk, tb=tb, ty=ty, fnames=fnames):
+            it = run.it
+            selfv = it.top_of(st, tb, tb.locals[1]["ty"], hint="self", region_prefix=run.fr.id + ":v")
+            cell = selfv.cell if isinstance(selfv, Ref) else None
+            tgt = st.cells.get(cell) if cell else selfv
+            seqs = []
+            c12.all_leaf_seqs(tgt, seqs)
+            lim = c12.IN_LIMIT_ELEMS.get(ty.split("::")[-1], c12.IN_LIMIT)
+            for q in seqs:
+                if not q.len.is_const():
+                    st.sys.add_ge(Lin.const(lim) - q.len)
+            for fname, (lo, hi) in VALUE_LIMITS.get(ty, {}).items():
+                if fname in fnames and isinstance(tgt, Struct) and isinstance(tgt.get(fnames.index(fname)), Num):
+                    st.sys.add_range(tgt.get(fnames.index(fname)).e, lo, hi)
+            starts = [(st, tgt)]
+            for path, vs in variants_of(tgt):
+                nxt = []
+                for s0, t0 in starts:
+                    for vi in vs:
+                        s1 = s0.copy()
+                        ev = t0
+                        for i_ in path:
+                            ev = ev.get(i_)
+                        nxt.append((s1, with_path(t0, path, ev.only(vi))))
+                starts = nxt
+            outs = []
+            for s0, t0 in starts:
+                if cell:
+                    s0.cells[cell] = t0
+                s0.cells["ghost:orig"] = t0
+                for s1, raw in it.call_local(s0, run.fr, 9300, tk, [selfv if cell else t0], {"span": tb.span}):
+                    s1.cells["ghost:rawcell"] = raw
+                    s1.cells[it.cell_of(run.fr, 1)] = Ref("ghost:rawcell")
+                    outs.append(s1)
+            it.obligations.clear()
+            return outs
+        r = Run(prog, dk, track_content=True, bool_vars=False, path_sensitive=False, setup=setup, max_parts=400, byte_defs=True)
+        if r.error or not r.results:
+            undecided.append("%s (analysis: %s)" % (name, (r.error or "no return state")[:120]))
+            continue
+        use_registry(r.it)
+        verdicts = []
+        n_ok = 0
+        for st, ret in r.results:
+            if not (isinstance(ret, Enum) and set(ret.v) == {0}):
+                continue          # a refusal (out-of-limit value, or text the analysis cannot show to be UTF-8)
+            n_ok += 1
+            got = ret.v[0].get(0)
+            orig = st.cells.get("ghost:orig")
+            verdicts.append(same_field(st, got, orig))
+        where = prog.bodies[dk].loc()
+        if any(v is False for v in verdicts):
+            chk.ob("roundtrip", "%s: decode(to_raw(v)) gives back v" % name, False, where, detail="a decoded field is provably not the original field",
+                   how="E2, content tracking: to_raw then the decoder on one symbolic value")
+            decided.append(name)
+        elif n_ok and all(v is True for v in verdicts):
+            chk.ob("roundtrip", "%s: decode(to_raw(v)) gives back v" % name, True, where,
+                   how="E2, content tracking: to_raw then the decoder on one symbolic value (%d accepting return states)" % n_ok)
+            decided.append(name)
+        else:
+            undecided.append("%s (%d accepting states, %d not decided)" % (name, n_ok, sum(1 for v in verdicts if v is None)))
+    chk.analysed["roundtrip_decided"] = decided
+    chk.analysed["roundtrip_undecided"] = undecided
+    chk.floor("roundtrip-decided", len(decided), 6)
